@@ -26,7 +26,10 @@ def run(ctx):
 
     # ------------------------------------------------------------------ injectivity guard inside find_best
     ctx.clause("never two vertices to one target: every candidate is outside the targets already taken")
-    apps = [e for e in s.events if e.kind == "call" and isinstance(e.fname, tuple) and e.fname[1] == "append" and e.loops()]
+    # the candidates are whatever is added to the lists that are merged into the list the answer is picked from
+    merged = [e.value for e in s.events if e.kind == "assign" and e.value[0] == "call" and e.value[1] == "numpy.concatenate" and not e.loops()]
+    feeds = {x[1] for m in merged for x in T.subterms(m) if x[0] in ("loopres", "lc")}
+    apps = [e for e in rules.additions(s) if e.loops() and e.name in feeds]
     if not apps:
         raise AnalysisError("find_best: no candidate is ever appended - re-bind the anchor")
     for e in apps:
@@ -208,7 +211,14 @@ def run(ctx):
     if ok:
         k = good[0].key
         v = good[0].value
-        ok = v[0] == "call" and v[1] == cm.qualname and v[2][1] == T.idx(T.attr(SELF, "time_series"), k) and v[2][2] == T.idx(T.attr(SELF, "time_series"), T.add(k, T.num(1)))
+        series = T.attr(SELF, "time_series")
+        lp = good[0].loops()
+        ro = rules.roles(lp[-1]) if lp else None
+        # the step's own frame: series[k], spelled through the loop that enumerates the series
+        own = {T.idx(series, k)}
+        if ro is not None and ro.base == series and ro.kind == "items" and k == ro.key:
+            own.add(ro.val)
+        ok = v[0] == "call" and v[1] == cm.qualname and v[2][1] in own and v[2][2] == T.idx(series, T.add(k, T.num(1)))
         g3 = v[2][3] if ok and len(v[2]) > 3 else None
         okg = g3 is not None and g3[0] == "idx" and g3[2] == k and any(x == T.attr(SELF, "initial_guess") for x in T.subterms(g3[1]))
         ctx.check(okg, "ALIGN", f"{init.qualname} / ALIGN / step k receives the user pairings of step k", ctx.where(init),
